@@ -477,6 +477,13 @@ class Connection(ExportImport):
             transaction.extension)
         transaction.set_data(self, meta_data)
 
+        if self.before is not None:
+            # Fail before taking the storage's commit lock: if a live
+            # connection of the same database takes part in the
+            # transaction and comes first, waiting for the lock here
+            # would never end.
+            raise ReadOnlyHistoryError()
+
         # _creating is a list of oids of new objects, which is used to
         # remove them from the cache if a transaction aborts.
         self._creating.clear()
